@@ -147,7 +147,9 @@ Definition smallest_fitting_uint (max_value : Z) : Z :=
 (* ---- approximate_instances (instance_approximator.py:66-101, 137-178) on a SemanticPair:
    negative labels -> AssertionError; backend None -> default by dimensionality; CCA of both maps;
    the reported instance counts; the output dtype = smallest uint fitting the larger count. *)
-Definition has_negative (m : smap) : bool := existsb (fun p => snd p <? 0) m.
+(* the assertion `min_value >= 0` on the smallest label; a map fails it iff one of its labels does *)
+Definition negative_ok (min_value : Z) : bool := 0 <=? min_value.
+Definition has_negative (m : smap) : bool := existsb (fun p => negb (negative_ok (snd p))) m.
 Definition pick_backend (bk : option backend) (ndim : Z) : backend :=
   match bk with Some b => b | None => default_backend ndim end.
 Definition approx_instances (bk : option backend) (ndim : Z) (pred ref : smap)
